@@ -64,7 +64,7 @@ func (h *harness) setupDisk() error {
 	if err != nil {
 		return err
 	}
-	d := &diskState{h: h, base: base, roots: map[string]string{"alpha": filepath.Join(base, "alpha"), "beta": filepath.Join(base, "beta")},
+	d := &diskState{h: h, base: base, roots: map[string]string{"alpha": filepath.Join(base, "alpha"), "beta": filepath.Join(base, "beta"), "gamma": filepath.Join(base, "gamma")},
 		canary: filepath.Join(base, "canary"), stamp: 1_000_000_000, userEdit: map[string]int64{}, lastSnap: map[string]*core.Entry{},
 		scanStart: map[string]int64{}, transStart: map[string]int64{}, gated: map[string]bool{}}
 	for _, r := range d.roots {
@@ -141,7 +141,7 @@ func joinFD(fd int, path string) string {
 // classify returns the side ("alpha"/"beta") and root-relative path of an
 // absolute path, or "" when it lies outside both roots.
 func (d *diskState) classify(abs string) (side, rel string) {
-	for _, s := range []string{"alpha", "beta"} {
+	for _, s := range []string{"alpha", "beta", "gamma"} {
 		r := d.roots[s]
 		if abs == r {
 			return s, ""
@@ -493,6 +493,17 @@ func (d *diskState) userOp(op simkit.Op) {
 			mode = 0o755
 		}
 		os.WriteFile(abs, []byte(fmt.Sprintf("content-%d", op.Int(0))), mode)
+		os.Chmod(abs, mode)
+		d.touch(abs)
+	case "putbig":
+		// A file whose size is chosen by the plan (rsync blocks, large data).
+		d.clearPath(root, rel)
+		mode := os.FileMode(0o644)
+		if op.Int(1) == 1 {
+			mode = 0o755
+		}
+		data := simkit.NewRand(uint64(op.Int(0)), 77).Bytes(int(op.Int(2)), 4)
+		os.WriteFile(abs, append([]byte(fmt.Sprintf("content-%d:", op.Int(0))), data...), mode)
 		os.Chmod(abs, mode)
 		d.touch(abs)
 	case "edit":
